@@ -295,9 +295,17 @@ func judgeFinal(sc Scenario, o sobs, allowed []sstate, add func(sig, msg string)
 	}
 }
 
+// branchHere selects the points at which schedules branch: the synchronisation operations of Store, epochTracker,
+// guard, Shard, tsm1.Engine and tsm1.Cache (and the harness steps). Pure size/idle bookkeeping atomics are passed
+// silently, like every lock of the other files (all are modelled: a contended one still disables the thread).
 func branchHere(kind vrt.OpKind, label string) bool {
 	if kind == vrt.OpHook {
 		return true
+	}
+	for _, s := range []string{"IsIdle", "(*Cache).Size", "(*Cache).init", "increaseSize", "decreaseSize"} {
+		if strings.Contains(label, s) {
+			return false
+		}
 	}
 	for _, s := range []string{"tsdb.(*Store)", "(*epochTracker)", "(*epochDeleteState)", "(*epochWaiter)", "(*guard)", "tsdb.(*Shard)", "tsm1.(*Engine)", "tsm1.(*Cache)", "sync.(*Cond)"} {
 		if strings.Contains(label, s) {
@@ -478,8 +486,13 @@ func scenarios(thorough bool) []Scenario {
 					if w == "match-out" && rg == "all" {
 						continue // nothing is outside the range
 					}
-					if !thorough && (lay == "tsm" && n == "two" || rg == "all" && n == "two") {
-						continue
+					if !thorough {
+						keep := lay == "cache" && n == "one" ||
+							lay == "tsm" && n == "one" && rg == "lo" && (w == "match-out" || w == "match-in") ||
+							lay == "cache" && n == "two" && rg == "lo" && (w == "other-series" || w == "match-in")
+						if !keep {
+							continue
+						}
 					}
 					out = append(out, Scenario{lay, n, rg, w})
 				}
@@ -545,10 +558,11 @@ func ssig(sc Scenario, clause string) string {
 	if clause == "nonconflicting-write-blocked" {
 		return vlib.JoinSig("schedule", clause, "delete||write-"+sc.Writer) // the cause does not depend on layout / range
 	}
-	return vlib.JoinSig("schedule", clause, "delete||write-"+sc.Writer, "range="+sc.Range, "s0-points="+sc.S0Pts, "layout="+sc.Layout)
+	emptied := sc.Range == "all" || sc.S0Pts == "one"
+	return vlib.JoinSig("schedule", clause, "delete||write-"+sc.Writer, fmt.Sprintf("delete-empties-series=%v", emptied), "layout="+sc.Layout)
 }
 
-func runSchedules(t *testing.T, c *vlib.Ctx, idx *int64) {
+func runSchedules(t *testing.T, c *vlib.Ctx, stop func() bool) {
 	bound := 1
 	if c.Thorough() {
 		bound = 2
@@ -559,11 +573,11 @@ func runSchedules(t *testing.T, c *vlib.Ctx, idx *int64) {
 		if only := os.Getenv("C17_SCEN"); only != "" && only != fmt.Sprint(si) {
 			continue
 		}
-		if c.Expired() {
-			c.Cap("budget expired before all schedule scenarios were explored")
+		if stop() {
+			c.Cap("budget share of part 2 expired before all schedule scenarios were explored")
 			return
 		}
-		st := exploreScenario(t, sc, bound, c.Shard, c.NShards, si, c.Expired, func(r *vrt.Result, res sresult) {
+		st := exploreScenario(t, sc, bound, c.Shard, c.NShards, si, stop, func(r *vrt.Result, res sresult) {
 			c.Eval(1)
 			if r.Preempts > 0 {
 				c.NontrivialN(1)
@@ -594,7 +608,7 @@ func runSchedules(t *testing.T, c *vlib.Ctx, idx *int64) {
 			}
 		})
 		if !st.Complete {
-			c.Cap("budget expired inside schedule scenario " + sc.String())
+			c.Cap("budget share of part 2 expired inside schedule scenario " + sc.String())
 		}
 		c.StateN(st.Nodes)
 		c.Transition(st.Transitions)
